@@ -17,6 +17,9 @@ def dispatch(pid, tier, replay):
     if pid == "C16":
         import content_checks
         return content_checks.c16(tier)
+    if pid == "C10":
+        import static_checks
+        return static_checks.c10(tier)
     raise common.MachineryError("no check for " + pid)
 
 
